@@ -4,29 +4,572 @@ Import ListNotations.
 Require Import OPC.gen.GenKinds OPC.Uni OPC.Names OPC.NamesThm OPC.Codec OPC.MapsThm OPC.CodecThm OPC.Types OPC.TypesThm OPC.Typed.
 Open Scope N_scope.
 
-(* STATEMENTS TO PROVE (exactly as written; helper lemmas before them)
+(* ================================================================== unfolding equations *)
+Definition lookf (name : str) : list (str * pv) -> option pv :=
+  fix look (fs : list (str * pv)) : option pv :=
+    match fs with [] => None | (n, v) :: r => if str_eqb n name then Some v else look r end.
 
-(* a well-typed value is an instance of the annotation *)
+Lemma lookf_hit n v fs : lookf n ((n, v) :: fs) = Some v.
+Proof. simpl. now rewrite str_eqb_refl. Qed.
+
+Lemma lookf_skip n n' v fs : n' <> n -> lookf n ((n', v) :: fs) = lookf n fs.
+Proof. intro H. simpl. now rewrite (str_eqb_neq n' n H). Qed.
+
+Lemma wt_props_cons w n req k ps fs :
+  wt_props w ((n, (req, k)) :: ps) fs =
+  match lookf n fs with Some v => wt_field w k req v && wt_props w ps fs | None => false end.
+Proof. reflexivity. Qed.
+
+Lemma enc_props_cons e n req k ps fs :
+  enc_props e ((n, (req, k)) :: ps) fs =
+  match lookf n fs with
+  | None => None
+  | Some v => match enc_field e k req v with
+              | None => None
+              | Some o => match enc_props e ps fs with
+                          | None => None
+                          | Some r => Some (match o with Some j => (n, j) :: r | None => r end)
+                          end
+              end
+  end.
+Proof. reflexivity. Qed.
+
+Lemma wt_props_skip w n v fs ps : ~ In n (map fst ps) -> wt_props w ps ((n, v) :: fs) = wt_props w ps fs.
+Proof.
+  induction ps as [|[n' [req k]] ps IH]; intro H; [reflexivity|]. rewrite !wt_props_cons. simpl in H.
+  rewrite lookf_skip by (intro; subst; apply H; now left). rewrite IH by tauto. reflexivity.
+Qed.
+
+Lemma wt_unset T f : forall k, wt T f k PUnset = false.
+Proof.
+  induction f as [|f IH]; intro k; [reflexivity|]. cbn [wt]. destruct k; try reflexivity.
+  cbn [wt_step]. induction ms as [|m ms IHms]; simpl; [reflexivity|]. now rewrite IH.
+Qed.
+
+Lemma wt_field_cases w k req v : wt_field w k req v = true -> (v = PUnset /\ req = false) \/ (v <> PUnset /\ w k v = true).
+Proof.
+  destruct v; simpl; intro H; try (right; split; [discriminate|exact H]).
+  left. split; auto. now destruct req.
+Qed.
+
+Lemma wt_field_of_wt T f k req v : wt T f k v = true -> wt_field (wt T f) k req v = true.
+Proof. intro H. destruct v; auto. rewrite wt_unset in H. discriminate. Qed.
+
+(* ================================================================== a well-typed value is an instance of the annotation *)
 Theorem wt_inhabits : forall T f k v, wt T f k v = true -> inhabits v (type_of k true) = true.
+Proof.
+  intros T. induction f as [|f IH]; intros k v H; [discriminate H|].
+  cbn [wt] in H. destruct k; cbn [wt_step] in H.
+  - reflexivity.
+  - destruct v as [|j| | | | | |]; try discriminate H. destruct j; try discriminate H. reflexivity.
+  - destruct v as [|j| | | | | |]; try discriminate H. destruct j; try discriminate H. reflexivity.
+  - destruct v as [|j| | | | | |]; try discriminate H. destruct j; try discriminate H; reflexivity.
+  - destruct v as [|j| | | | | |]; try discriminate H. destruct j; try discriminate H; reflexivity.
+  - destruct v as [|j| | | | | |]; try discriminate H. destruct j; try discriminate H. reflexivity.
+  - destruct v; try discriminate H; reflexivity.
+  - destruct v; try discriminate H; reflexivity.
+  - destruct v; try discriminate H; reflexivity.
+  - discriminate H.
+  - destruct v as [|j| | | | | |]; try discriminate H.
+    change (existsb (py_scalar_eqb j) [c] = true). cbn [existsb]. now rewrite H.
+  - destruct v as [| | | | |c' x| |]; try discriminate H. apply andb_true_iff in H as [H _]. exact H.
+  - destruct v as [|j| | | | | |]; try discriminate H. exact H.
+  - rewrite type_of_list. cbn [inhabits]. destruct v as [|j| | | | |l|]; try discriminate H.
+    + destruct j; try discriminate H. rewrite forallb_forall in H |- *. intros x Hx. apply IH. auto.
+    + rewrite forallb_forall in H |- *. intros x Hx. apply IH. auto.
+  - rewrite inh_type_of. cbn [alts]. rewrite existsb_flat_map'.
+    apply existsb_exists in H as (m & Hin & Hm). apply existsb_exists. exists m. split; auto.
+    apply IH in Hm. now rewrite inh_type_of in Hm.
+  - destruct v as [| | | | | | |c' fs ad]; try discriminate H. destruct (get_class T cls); [|discriminate H].
+    apply andb_true_iff in H as [H _]. apply andb_true_iff in H as [H _]. exact H.
+Qed.
+
+(* ================================================================== a JSON-tag classification of run-time values *)
+Definition vtag (v : pv) : jtag :=
+  match v with
+  | PUnset => TNull
+  | PJ j => tag_of j
+  | PDate _ | PDateTime _ | PUuid _ => TStr
+  | PEnum _ x => tag_of x
+  | PList _ => TArr
+  | PObj _ _ _ => TObj
+  end.
+
+(* a member passing the isinstance test either has the value's tag or is an enum class, whose transform (.value) cannot fail *)
+Lemma inst_tag T g m v : inst_match m v = true -> tagin (vtag v) (ktags m) = true \/ exists j, enc T (S g) m v = Some j.
+Proof.
+  intro H. destruct m; try destruct vt; destruct v as [|j|s|s|s|c0 x|l|c0 fs ad]; try discriminate H;
+    try (destruct j; try discriminate H); try (destruct x; try discriminate H);
+    try (left; reflexivity); right; eexists; reflexivity.
+Qed.
+
+Lemma typed_py_mem vt vals j : forallb (vty_of_json vt) vals = true -> existsb (py_scalar_eqb j) vals = true ->
+  exists x, vty_of_json vt x = true /\ py_scalar_eqb j x = true.
+Proof.
+  intros H1 H2. rewrite forallb_forall in H1. apply existsb_exists in H2 as (x & Hx & He). eauto.
+Qed.
+
+(* a value well-typed for a transforming member has one of its tags and passes its isinstance test *)
+Lemma wt_tag_inst T w m v : has_transform m = true -> (forall ms, m <> KUnion ms) -> k_ok m = true ->
+  wt_step T w m v = true -> tagin (vtag v) (ktags m) = true /\ inst_match m v = true.
+Proof.
+  intros Ht Hnu Hk H. destruct m; try discriminate Ht; cbn [wt_step] in H.
+  - destruct v; try discriminate H; split; reflexivity.
+  - destruct v; try discriminate H; split; reflexivity.
+  - destruct v; try discriminate H; split; reflexivity.
+  - discriminate H.
+  - destruct v as [| | | | |c' x| |]; try discriminate H. apply andb_true_iff in H as [Hc Hx].
+    simpl in Hk. apply (typed_mem vt) in Hx as [_ Hty]; auto. split; [|exact Hc].
+    destruct vt, x; try discriminate Hty; reflexivity.
+  - destruct v as [|j| | | | | |]; try discriminate H. simpl in Hk.
+    destruct (typed_py_mem vt vals j Hk H) as (x & Hty & He).
+    destruct vt, x; try discriminate Hty; destruct j; try discriminate He; split; reflexivity.
+  - destruct v as [|j| | | | |l|]; try discriminate H; [destruct j; try discriminate H|]; split; reflexivity.
+  - exfalso. eapply Hnu. reflexivity.
+  - destruct v as [| | | | | | |c' fs ad]; try discriminate H. destruct (get_class T cls); [|discriminate H].
+    apply andb_true_iff in H as [H _]. apply andb_true_iff in H as [H _]. split; [reflexivity|exact H].
+Qed.
+
+Lemma wt_nt_pj T w m v : has_transform m = false -> wt_step T w m v = true -> exists j, v = PJ j.
+Proof.
+  intros Ht H. destruct m; try discriminate Ht; cbn [wt_step] in H; destruct v; try discriminate H; eauto.
+Qed.
+
+(* raw JSON well-typed for a pass-through member: another member's isinstance test passes only for a literal enum (copied
+   unchanged) or for a list member, which then overlaps *)
+Lemma nt_other T g w mi m j : has_transform mi = false -> wt_step T w mi (PJ j) = true ->
+  has_transform m = true -> inst_match m (PJ j) = true ->
+  (exists j', enc T (S g) m (PJ j) = Some j') \/
+  (tagin (tag_of j) (ktags mi) = true /\ tagin (tag_of j) (ktags m) = true).
+Proof.
+  intros Hnt Hw Ht Hi. destruct m; try discriminate Ht; try discriminate Hi.
+  - left. eexists. reflexivity.
+  - destruct j; try discriminate Hi. right. split; [|reflexivity].
+    destruct mi; try discriminate Hnt; cbn [wt_step] in Hw; try discriminate Hw; try reflexivity.
+Qed.
+
+(* ================================================================== generic loops *)
+Lemma map_opt_all {A B} (ff : A -> option B) l : (forall x, In x l -> exists y, ff x = Some y) -> exists r, map_opt ff l = Some r.
+Proof.
+  induction l as [|x l IH]; intro H; simpl; [eauto|].
+  destruct (H x (or_introl eq_refl)) as (y & ->). destruct IH as (r & ->); [intros; apply H; now right|]. eauto.
+Qed.
+
+Lemma map_opt_snd_all {A B} (ff : A -> option B) (l : list (str * A)) :
+  (forall k x, In (k, x) l -> exists y, ff x = Some y) -> exists r, map_opt_snd ff l = Some r.
+Proof.
+  induction l as [|[k x] l IH]; intro H; simpl; [eauto|].
+  destruct (H k x (or_introl eq_refl)) as (y & ->). destruct IH as (r & ->); [intros; eapply H; right; eauto|]. eauto.
+Qed.
+
+Section UnionEnc.
+  Variable e : pk -> pv -> option json.
+
+  Lemma enc_hit' pre mi post v :
+    (forall m, In m pre -> has_transform m = true -> inst_match m v = true -> exists j, e m v = Some j) ->
+    has_transform mi = true -> inst_match mi v = true -> (exists j, e mi v = Some j) ->
+    forall hi un, exists j, enc_union_loop e (pre ++ mi :: post) hi un v = Some j.
+  Proof.
+    intros Hpre Ht Hi He. induction pre as [|m pre IH]; intros hi un.
+    - simpl app. rewrite enc_union_loop_cons, Ht, Hi. cbn [negb]. now destruct (_ || un).
+    - rewrite <- app_comm_cons, enc_union_loop_cons.
+      destruct (has_transform m) eqn:Etm; cbn [negb].
+      + rewrite is_nil_app by discriminate. cbn [negb]. rewrite orb_true_r. cbn [orb].
+        destruct (inst_match m v) eqn:Eim.
+        * apply Hpre; auto. now left.
+        * apply IH. intros; apply Hpre; auto. now right.
+      + apply IH. intros; apply Hpre; auto. now right.
+  Qed.
+
+  Lemma enc_pj' ms j :
+    (forall m, In m ms -> has_transform m = true -> inst_match m (PJ j) = true -> exists j', e m (PJ j) = Some j') ->
+    forall hi un, (un = true \/ exists m, In m ms /\ has_transform m = false) ->
+    exists j', enc_union_loop e ms hi un (PJ j) = Some j'.
+  Proof.
+    induction ms as [|m rest IH]; intros Hin hi un Hun; [simpl; eauto|]. rewrite enc_union_loop_cons.
+    destruct (has_transform m) eqn:Et; cbn [negb].
+    - destruct (negb hi || negb (is_nil rest) || un) eqn:Ec.
+      + destruct (inst_match m (PJ j)) eqn:Ei; [apply Hin; auto; now left|].
+        apply IH; [intros; apply Hin; auto; now right|].
+        destruct Hun as [?|(m' & [<-|Hm'] & Ht')]; auto; [congruence|]. right. eauto.
+      + exfalso. apply orb_false_iff in Ec as [Ec Eu]. apply orb_false_iff in Ec as [_ Ec].
+        destruct rest; [|discriminate Ec].
+        destruct Hun as [?|(m' & [<-|[]] & Ht')]; congruence.
+    - apply IH; [intros; apply Hin; auto; now right|]. now left.
+  Qed.
+End UnionEnc.
+
+(* ================================================================== the encoder accepts well-typed values: one level *)
+Definition enc_good T g k v :=
+  (exists j, enc T g k v = Some j) /\ forall req, exists j, enc_field (enc T g) k req v = Some (Some j).
+
+Lemma enc_good_intro T g k v j : (forall ms, k <> KUnion ms) -> enc T g k v = Some j -> enc_good T g k v.
+Proof. intros Hn He. split; [eauto|]. intro req. exists j. now apply field_of_enc. Qed.
+
+Section LevelE.
+  Variables (T : ctable) (f : nat).
+  Hypothesis HT : table_ok T = true.
+  Hypothesis IH : forall g k v, (f <= g)%nat -> k_ok k = true -> wt T f k v = true -> enc_good T g k v.
+
+  Lemma IHe g k v : (f <= g)%nat -> k_ok k = true -> wt T f k v = true -> exists j, enc T g k v = Some j.
+  Proof. intros Hg Hk Hw. now destruct (IH g k v Hg Hk Hw). Qed.
+
+  Lemma klist_enc g inner v : (f <= g)%nat -> k_ok inner = true -> wt T (S f) (KList inner) v = true ->
+    enc_good T (S g) (KList inner) v.
+  Proof.
+    intros Hg Hk Hw. cbn [wt wt_step] in Hw.
+    assert (He: exists j, enc T (S g) (KList inner) v = Some j).
+    { cbn [enc]. rewrite enc_step_list. destruct (has_transform inner) eqn:Et.
+      - destruct v as [|j| | | | |l|]; try discriminate Hw; [destruct j; try discriminate Hw|]; cbn [items].
+        + destruct (map_opt_all (enc T g inner) (map PJ l)) as (r & ->); [|simpl; eauto].
+          intros x Hx. apply in_map_iff in Hx as (y & <- & Hy). rewrite forallb_forall in Hw. apply IHe; auto.
+        + destruct (map_opt_all (enc T g inner) l) as (r & ->); [|simpl; eauto].
+          intros x Hx. rewrite forallb_forall in Hw. apply IHe; auto.
+      - destruct v as [|j| | | | |l|]; try discriminate Hw; [simpl; eauto|].
+        rewrite plain_list. destruct (map_opt_all plain l) as (r & ->); [|simpl; eauto].
+        intros x Hx. rewrite forallb_forall in Hw. destruct (IHe g inner x Hg Hk (Hw x Hx)) as (y & Hy).
+        exists y. eapply enc_plain; eauto. }
+    destruct He as (j & He). eapply enc_good_intro; eauto. intros ms; discriminate.
+  Qed.
+
+  (* ---------------- model classes *)
+  Lemma field_enc g k req v : (f <= g)%nat -> k_ok k = true -> wt_field (wt T f) k req v = true ->
+    exists o, enc_field (enc T g) k req v = Some o /\ (o = None <-> v = PUnset).
+  Proof.
+    intros Hg Hk Hw. apply wt_field_cases in Hw as [[-> ->]|[Hv Hw]].
+    - exists None. split; [apply unset_not_encoded_aux|tauto].
+    - destruct (IH g k v Hg Hk Hw) as [_ Hf]. destruct (Hf req) as (j & Hj). exists (Some j). split; auto.
+      split; [discriminate|contradiction].
+  Qed.
+
+  Lemma props_enc g : (f <= g)%nat -> forall ps fs, forallb (fun p => k_ok (snd (snd p))) ps = true ->
+    wt_props (wt T f) ps fs = true -> exists kvs, enc_props (enc T g) ps fs = Some kvs.
+  Proof.
+    intro Hg. induction ps as [|[n [req k]] ps IHps]; intros fs Hk Hw; [simpl; eauto|].
+    cbn [forallb snd] in Hk. apply andb_true_iff in Hk as [Hk1 Hk2].
+    rewrite wt_props_cons in Hw. rewrite enc_props_cons.
+    destruct (lookf n fs) as [v|]; [|discriminate Hw]. apply andb_true_iff in Hw as [Hw1 Hw2].
+    destruct (field_enc g k req v Hg Hk1 Hw1) as (o & -> & _).
+    destruct (IHps fs Hk2 Hw2) as (kvs & ->). eauto.
+  Qed.
+
+  Lemma kmodel_enc g c v : (f <= g)%nat -> wt T (S f) (KModel c) v = true -> enc_good T (S g) (KModel c) v.
+  Proof.
+    intros Hg Hw. cbn [wt wt_step] in Hw.
+    destruct v as [| | | | | | |c' fs ad]; try discriminate Hw.
+    destruct (get_class T c) as [cd|] eqn:Ec; [|discriminate Hw].
+    apply andb_true_iff in Hw as [Hw Had]. apply andb_true_iff in Hw as [Hc Hwp].
+    apply N.eqb_eq in Hc. subst c'.
+    pose proof (table_cdef T c cd HT Ec) as Hcd. unfold cdef_ok in Hcd.
+    apply andb_true_iff in Hcd as [Hcd Hak]. apply andb_true_iff in Hcd as [Hkp _].
+    destruct (props_enc g Hg (c_props cd) fs Hkp Hwp) as (kvs & Hep).
+    assert (Hbase: exists b, match c_addl cd with
+                             | None => Some []
+                             | Some ak => if has_transform ak then map_opt_snd (enc T g ak) ad else map_opt_snd plain ad
+                             end = Some b).
+    { destruct (c_addl cd) as [ak|]; [|eauto].
+      rewrite forallb_forall in Had.
+      destruct (has_transform ak) eqn:Et; apply map_opt_snd_all; intros k x Hin;
+        destruct (IHe g ak x Hg Hak (Had (k, x) Hin)) as (y & Hy); exists y; auto.
+      eapply enc_plain; eauto. }
+    destruct Hbase as (b & Hbase).
+    eapply enc_good_intro; [intros ms; discriminate|].
+    cbn [enc]. rewrite enc_step_model. unfold enc_obj. rewrite Ec, Hep. cbv zeta. rewrite Hbase. reflexivity.
+  Qed.
+
+  (* ---------------- unions *)
+  Lemma union_enc g ms v : (f <= g)%nat -> k_ok (KUnion ms) = true -> existsb (fun m => wt T f m v) ms = true ->
+    forall hi un, exists j, enc_union_loop (enc T g) ms hi un v = Some j.
+  Proof.
+    intros Hg Hk Hw. apply existsb_exists in Hw as (mi & Hin & Hw).
+    destruct (k_ok_union ms Hk) as (_ & Hpd & Hmem).
+    destruct (Hmem mi Hin) as [Hnu Hkmi].
+    pose proof (IHe g mi v Hg Hkmi Hw) as Hemi.
+    apply in_split in Hin as (pre & post & ->).
+    rewrite map_app in Hpd. cbn [map] in Hpd. apply pd_split in Hpd as [Hpre Hpost].
+    destruct f as [|f']; [discriminate Hw|]. destruct g as [|g']; [lia|].
+    cbn [wt] in Hw.
+    destruct (has_transform mi) eqn:Etm.
+    - destruct (wt_tag_inst T _ mi v Etm Hnu Hkmi Hw) as [Htag Hinst].
+      apply enc_hit'; auto.
+      intros m Hm _ Hi. destruct (inst_tag T g' m v Hi) as [Ht|He]; auto. exfalso.
+      rewrite (tags_disjoint_r (ktags m) (ktags mi) (vtag v)) in Ht; [discriminate| |exact Htag].
+      apply Hpre, in_map, Hm.
+    - destruct (wt_nt_pj T _ mi v Etm Hw) as (j & ->). intros hi un. apply enc_pj'.
+      + intros m Hm Ht Hi.
+        assert (Hdis: tagin (tag_of j) (ktags mi) = true -> tagin (tag_of j) (ktags m) = false).
+        { intro Hti. apply in_app_or in Hm as [Hm|[<-|Hm]].
+          - eapply tags_disjoint_r; [apply Hpre, in_map, Hm | exact Hti].
+          - congruence.
+          - eapply tags_disjoint_l; [apply Hpost, in_map, Hm | exact Hti]. }
+        destruct (nt_other T g' _ mi m j Etm Hw Ht Hi) as [He|[H1 H2]]; auto.
+        rewrite (Hdis H1) in H2. discriminate.
+      + right. exists mi. split; auto. apply in_or_app. right. now left.
+  Qed.
+
+  Lemma kunion_enc g ms v : (f <= g)%nat -> k_ok (KUnion ms) = true -> wt T (S f) (KUnion ms) v = true ->
+    enc_good T (S g) (KUnion ms) v.
+  Proof.
+    intros Hg Hk Hw. assert (Hv: v <> PUnset) by (intros ->; rewrite wt_unset in Hw; discriminate).
+    cbn [wt wt_step] in Hw. split.
+    - cbn [enc]. rewrite enc_step_union. now apply union_enc.
+    - intro req. unfold enc_field. change (has_transform (KUnion ms)) with true. cbv iota.
+      assert (Hg': (f <= S g)%nat) by lia.
+      destruct (union_enc (S g) ms v Hg' Hk Hw (negb req) false) as (j & Hj).
+      exists j. destruct v; [congruence|..]; rewrite Hj; reflexivity.
+  Qed.
+End LevelE.
+
+Theorem enc_strong T : table_ok T = true ->
+  forall f g k v, (f <= g)%nat -> k_ok k = true -> wt T f k v = true -> enc_good T g k v.
+Proof.
+  intro HT. induction f as [|f IHf]; intros g k v Hg Hk Hw; [discriminate Hw|].
+  destruct g as [|g]; [lia|]. assert (Hg': (f <= g)%nat) by lia.
+  destruct k; try (cbn [wt wt_step] in Hw;
+    destruct v as [|j|s|s|s|c' x|l|c' fs ad]; try discriminate Hw;
+    (eapply enc_good_intro; [intros ms; discriminate|reflexivity])).
+  - apply (klist_enc T f IHf); auto.
+  - apply (kunion_enc T f IHf); auto.
+  - apply (kmodel_enc T f HT IHf); auto.
+Qed.
 
 (* the encoder accepts every well-typed value: to_dict / transform never raises on it and yields plain JSON *)
 Theorem annotation_accepted_by_encoder : forall T f k v,
   table_ok T = true -> k_ok k = true -> wt T f k v = true -> exists j, enc T f k v = Some j.
+Proof.
+  intros T f k v HT Hk Hw. now destruct (enc_strong T HT f f k v (le_n f) Hk Hw).
+Qed.
 
 (* ... and as an attribute (optional attributes may also hold UNSET, which is omitted) *)
 Theorem field_accepted_by_encoder : forall T f k req v,
   table_ok T = true -> k_ok k = true -> wt_field (wt T f) k req v = true ->
   exists o, enc_field (enc T f) k req v = Some o /\ (o = None <-> v = PUnset).
+Proof.
+  intros T f k req v HT Hk Hw. apply (field_enc T f (enc_strong T HT f)); auto.
+Qed.
+
+(* ================================================================== what the decoder produces is well-typed: one level *)
+Section LevelD.
+  Variables (orc : oracles) (T : ctable) (f : nat).
+  Hypothesis HT : table_ok T = true.
+  Hypothesis IH : forall k j v, k_ok k = true -> wf_json j = true -> valid orc T f k j = true ->
+    dec orc T f k j = Some v -> wt T f k v = true.
+
+  Lemma list_wt inner : k_ok inner = true -> forall l vs, forallb wf_json l = true -> forallb (valid orc T f inner) l = true ->
+    map_opt (dec orc T f inner) l = Some vs -> forallb (wt T f inner) vs = true.
+  Proof.
+    intro Hk. induction l as [|x l IHl]; intros vs Hw Hv Hd; simpl in Hd.
+    - injection Hd as <-. reflexivity.
+    - cbn [forallb] in Hw, Hv. apply andb_true_iff in Hw as [Hw1 Hw2]. apply andb_true_iff in Hv as [Hv1 Hv2].
+      destruct (dec orc T f inner x) as [y|] eqn:Ey; [|discriminate Hd].
+      destruct (map_opt (dec orc T f inner) l) as [r|] eqn:Er; [|discriminate Hd]. injection Hd as <-.
+      cbn [forallb]. rewrite (IH inner x y Hk Hw1 Hv1 Ey), (IHl r Hw2 Hv2 eq_refl). reflexivity.
+  Qed.
+
+  Lemma pj_wt k x : has_construct k = false -> k_ok k = true -> wf_json x = true -> valid orc T f k x = true ->
+    wt T f k (PJ x) = true.
+  Proof.
+    intros Hc Hk Hw Hv. apply (IH k x (PJ x) Hk Hw Hv).
+    destruct f as [|f']; [discriminate Hv|]. cbn [dec]. now apply dec_step_pass.
+  Qed.
+
+  Lemma list_pj_wt inner : has_construct inner = false -> k_ok inner = true -> forall l, forallb wf_json l = true ->
+    forallb (valid orc T f inner) l = true -> forallb (fun x => wt T f inner (PJ x)) l = true.
+  Proof.
+    intros Hc Hk. induction l as [|x l IHl]; intros Hw Hv; [reflexivity|].
+    cbn [forallb] in Hw, Hv |- *. apply andb_true_iff in Hw as [Hw1 Hw2]. apply andb_true_iff in Hv as [Hv1 Hv2].
+    rewrite (IHl Hw2 Hv2), andb_true_r. now apply pj_wt.
+  Qed.
+
+  Lemma union_wt ms j v : k_ok (KUnion ms) = true -> wf_json j = true ->
+    existsb (fun m => valid orc T f m j) ms = true -> dec_union (dec orc T f) ms j = Some v ->
+    existsb (fun m => wt T f m v) ms = true.
+  Proof.
+    intros Hk Hw Hv Hd. unfold dec_union in Hd.
+    apply existsb_exists in Hv as (mi & Hin & Hv).
+    destruct f as [|f'] eqn:Ef; [discriminate Hv|].
+    destruct (existsb is_knone ms && json_eqb j JNull) eqn:Esc.
+    - injection Hd as <-. apply andb_true_iff in Esc as [Hn _].
+      apply existsb_exists in Hn as (m & Hin' & Hm). apply existsb_exists. exists m. split; auto.
+      destruct m; try discriminate Hm. reflexivity.
+    - clear Esc. assert (Hin0 := Hin).
+      destruct (k_ok_union ms Hk) as (_ & Hpd & Hmem).
+      destruct (Hmem mi Hin) as [Hnu Hkmi].
+      assert (Hgoal: wt T (S f') mi v = true -> existsb (fun m => wt T (S f') m v) ms = true).
+      { intro Hi. apply existsb_exists. exists mi. split; auto. }
+      apply in_split in Hin as (pre & post & ->).
+      rewrite map_app in Hpd. cbn [map] in Hpd. apply pd_split in Hpd as [Hpre Hpost].
+      pose proof (valid_tag orc T f' mi j Hkmi Hv) as Htag.
+      assert (Hoffpre: forall m, In m pre -> off j m).
+      { intros m Hm. unfold off. eapply tags_disjoint_r; [apply Hpre, in_map, Hm | exact Htag]. }
+      assert (Hoffpost: forall m, In m post -> off j m).
+      { intros m Hm. unfold off. eapply tags_disjoint_l; [apply Hpost, in_map, Hm | exact Htag]. }
+      rewrite dec_skip in Hd by (try discriminate; auto).
+      apply Hgoal. apply (IH mi j v Hkmi Hw Hv).
+      destruct (has_construct mi) eqn:Ecm.
+      + destruct (rt_strong orc T HT (S f') (S f') mi j (le_n _) Hkmi Hw Hv) as (v' & Hd' & _).
+        rewrite (dec_hit (dec orc T (S f')) mi post _ j v' Ecm) in Hd; auto.
+        * now injection Hd as <-.
+        * intro Hc. eapply valid_check; eauto.
+      + rewrite dec_union_loop_cons, Ecm in Hd. cbn [negb] in Hd. rewrite dec_skip_end in Hd by exact Hoffpost.
+        injection Hd as <-. cbn [dec]. now apply dec_step_pass.
+  Qed.
+
+  (* ---------------- model classes *)
+  Lemma field_wt k req s v : k_ok k = true ->
+    match s with Some j => wf_json j = true /\ valid orc T f k j = true | None => True end ->
+    dec_field (dec orc T f) k req s = Some v -> wt_field (wt T f) k req v = true.
+  Proof.
+    intros Hk Hs Hd. destruct s as [j|].
+    - destruct Hs as [Hw Hv].
+      assert (Hgen: dec orc T f k j = Some v -> wt_field (wt T f) k req v = true).
+      { intro H. apply wt_field_of_wt. eapply IH; eauto. }
+      unfold dec_field in Hd. destruct k; auto.
+      destruct (has_construct (KList k) && has_construct k && negb req && falsy j) eqn:Ec; auto.
+      injection Hd as <-. destruct f as [|f']; [discriminate Hv|]. reflexivity.
+    - unfold dec_field in Hd. destruct req; [discriminate Hd|]. injection Hd as <-. reflexivity.
+  Qed.
+
+  Lemma props_wt : forall ps m rest fs rest',
+    forallb (fun kv => wf_json (snd kv)) m = true ->
+    forallb (fun p => k_ok (snd (snd p))) ps = true -> names_distinct ps = true ->
+    valid_props (valid orc T f) ps m = Some rest -> dec_props (dec orc T f) ps m = Some (fs, rest') ->
+    wt_props (wt T f) ps fs = true /\ rest' = rest.
+  Proof.
+    induction ps as [|[n [req k]] ps IHps]; intros m rest fs rest' Hw Hk Hn Hv Hd.
+    - simpl in Hv, Hd. injection Hv as <-. injection Hd as <- <-. auto.
+    - rewrite names_distinct_cons in Hn. apply andb_true_iff in Hn as [Hn1 Hn2].
+      apply negb_true_iff in Hn1. apply existsb_str_notIn in Hn1.
+      cbn [forallb snd] in Hk. apply andb_true_iff in Hk as [Hk1 Hk2].
+      cbn [valid_props] in Hv. cbn [dec_props] in Hd.
+      destruct (dec_field (dec orc T f) k req (m_get n m)) as [v0|] eqn:Edf; [|discriminate Hd].
+      destruct (dec_props (dec orc T f) ps (m_del n m)) as [[fs' r']|] eqn:Edp; [|discriminate Hd].
+      injection Hd as <- <-.
+      assert (Hf: wt_field (wt T f) k req v0 = true).
+      { apply (field_wt k req (m_get n m)); auto.
+        destruct (m_get n m) as [j|] eqn:Eg; [|exact I]. split.
+        - rewrite forallb_forall in Hw. apply (Hw (n, j)). now apply m_get_In.
+        - destruct (valid orc T f k j); [reflexivity|discriminate Hv]. }
+      rewrite wt_props_cons, lookf_hit, Hf, wt_props_skip by exact Hn1. cbn [andb].
+      destruct (m_get n m) as [j|] eqn:Eg.
+      + destruct (valid orc T f k j); [|discriminate Hv].
+        eapply (IHps (m_del n m)); eauto.
+        rewrite forallb_forall in Hw |- *. intros x Hx. apply Hw. eapply m_del_In; eauto.
+      + destruct req; [discriminate Hv|]. rewrite (m_del_absent n m Eg) in Edp. eapply (IHps m); eauto.
+  Qed.
+
+  Lemma addl_wt ak : k_ok ak = true -> forall rest ad, (forall k x, In (k, x) rest -> wf_json x = true) ->
+    forallb (fun kv => valid orc T f ak (snd kv)) rest = true ->
+    map_opt_snd (dec orc T f ak) rest = Some ad -> forallb (fun kv => wt T f ak (snd kv)) ad = true.
+  Proof.
+    intro Hk. induction rest as [|[k x] rest IHr]; intros ad Hw Hv Hd; simpl in Hd.
+    - injection Hd as <-. reflexivity.
+    - cbn [forallb snd] in Hv. apply andb_true_iff in Hv as [Hv1 Hv2].
+      destruct (dec orc T f ak x) as [y|] eqn:Ey; [|discriminate Hd].
+      destruct (map_opt_snd (dec orc T f ak) rest) as [r|] eqn:Er; [|discriminate Hd]. injection Hd as <-.
+      cbn [forallb snd]. rewrite (IH ak x y Hk (Hw k x (or_introl eq_refl)) Hv1 Ey). cbn [andb].
+      apply IHr; auto. intros k' x' Hin. eapply Hw. right. eauto.
+  Qed.
+
+  Lemma kmodel_wt c j v : wf_json j = true -> valid orc T (S f) (KModel c) j = true ->
+    dec orc T (S f) (KModel c) j = Some v -> wt T (S f) (KModel c) v = true.
+  Proof.
+    intros Hw Hv Hd. cbn [valid valid_step] in Hv. cbn [dec] in Hd. rewrite dec_step_model, dec_model_eq in Hd.
+    destruct (get_class T c) as [cd|] eqn:Ec; [|discriminate Hv].
+    destruct (trivial_class cd) eqn:Etr.
+    - injection Hd as <-. unfold trivial_class in Etr.
+      destruct (c_props cd) eqn:Ep; [|discriminate Etr]. destruct (c_addl cd) eqn:Ea; [discriminate Etr|].
+      cbn [wt wt_step]. rewrite Ec, Ep, Ea, N.eqb_refl. reflexivity.
+    - destruct j; try discriminate Hv. unfold dec_model_gen in Hd.
+      destruct (valid_props (valid orc T f) (c_props cd) m) as [rest|] eqn:Evp; [|discriminate Hv].
+      destruct (dec_props (dec orc T f) (c_props cd) m) as [[fs rest0]|] eqn:Edp; [|discriminate Hd].
+      pose proof (table_cdef T c cd HT Ec) as Hcd. unfold cdef_ok in Hcd.
+      apply andb_true_iff in Hcd as [Hcd Hak]. apply andb_true_iff in Hcd as [Hkp Hnd].
+      rewrite wf_obj in Hw. apply andb_true_iff in Hw as [Hs Hwv].
+      destruct (props_wt (c_props cd) m rest fs rest0 Hwv Hkp Hnd Evp Edp) as [Hwp ->].
+      destruct (valid_props_sub _ _ _ _ Hs Evp) as [_ Hsub].
+      assert (Hwr: forall k x, In (k, x) rest -> wf_json x = true).
+      { intros k x Hin. rewrite forallb_forall in Hwv. apply (Hwv (k, x)). auto. }
+      assert (Hfin: forall ad, match c_addl cd with
+                               | Some ak => forallb (fun kv => wt T f ak (snd kv)) ad
+                               | None => match ad with [] => true | _ => false end
+                               end = true -> wt T (S f) (KModel c) (PObj c fs ad) = true).
+      { intros ad Had. cbn [wt wt_step]. rewrite Ec, N.eqb_refl, Hwp. exact Had. }
+      destruct (c_addl cd) as [ak|] eqn:Ea.
+      + destruct (has_construct ak) eqn:Eca.
+        * destruct (map_opt_snd (dec orc T f ak) rest) as [ad|] eqn:Em; [|discriminate Hd]. injection Hd as <-.
+          apply Hfin. eapply addl_wt; eauto.
+        * injection Hd as <-. apply Hfin. rewrite forallb_forall in Hv |- *.
+          intros kv Hin. apply in_map_iff in Hin as ([k x] & <- & Hin). cbn [fst snd].
+          apply pj_wt; auto; [eapply Hwr; eauto|]. apply (Hv (k, x) Hin).
+      + injection Hd as <-. now apply Hfin.
+  Qed.
+End LevelD.
 
 (* what the decoder produces from schema-valid data is well-typed (so the two directions compose) *)
 Theorem decoded_is_well_typed : forall orc T f k j v,
   table_ok T = true -> k_ok k = true -> wf_json j = true ->
   valid orc T f k j = true -> dec orc T f k j = Some v -> wt T f k v = true.
+Proof.
+  intros orc T f k j v HT. revert k j v. induction f as [|f IHf]; intros k j v Hk Hw Hv Hd; [discriminate Hv|].
+  destruct k.
+  - cbn [dec] in Hd. rewrite dec_step_pass in Hd by reflexivity. injection Hd as <-. reflexivity.
+  - cbn [dec] in Hd. rewrite dec_step_pass in Hd by reflexivity. injection Hd as <-. destruct j; try discriminate Hv. reflexivity.
+  - cbn [dec] in Hd. rewrite dec_step_pass in Hd by reflexivity. injection Hd as <-. destruct j; try discriminate Hv. reflexivity.
+  - cbn [dec] in Hd. rewrite dec_step_pass in Hd by reflexivity. injection Hd as <-. destruct j; try discriminate Hv. reflexivity.
+  - cbn [dec] in Hd. rewrite dec_step_pass in Hd by reflexivity. injection Hd as <-. destruct j; try discriminate Hv; reflexivity.
+  - cbn [dec] in Hd. rewrite dec_step_pass in Hd by reflexivity. injection Hd as <-. destruct j; try discriminate Hv. reflexivity.
+  - cbn [dec] in Hd. rewrite dec_step_date in Hd. destruct j; try discriminate Hd. destruct (parse_date orc s); [|discriminate Hd].
+    injection Hd as <-. reflexivity.
+  - cbn [dec] in Hd. rewrite dec_step_datetime in Hd. destruct j; try discriminate Hd. destruct (parse_datetime orc s); [|discriminate Hd].
+    injection Hd as <-. reflexivity.
+  - cbn [dec] in Hd. rewrite dec_step_uuid in Hd. destruct j; try discriminate Hd. destruct (parse_uuid orc s); [|discriminate Hd].
+    injection Hd as <-. reflexivity.
+  - discriminate Hk.
+  - cbn [dec] in Hd. rewrite dec_step_const in Hd. destruct (py_scalar_eqb j c) eqn:E; [|discriminate Hd]. injection Hd as <-.
+    exact E.
+  - cbn [dec] in Hd. rewrite dec_step_enum in Hd. cbn [valid valid_step] in Hv. simpl in Hk.
+    destruct (typed_find vt vals j Hk Hv) as [Hf _]. rewrite Hf in Hd. injection Hd as <-.
+    cbn [wt wt_step]. now rewrite N.eqb_refl, Hv.
+  - cbn [dec] in Hd. rewrite dec_step_litenum in Hd. destruct (existsb (py_scalar_eqb j) vals) eqn:E; [|discriminate Hd].
+    injection Hd as <-. exact E.
+  - cbn [dec] in Hd. rewrite dec_step_list in Hd. cbn [valid valid_step] in Hv. destruct j; try discriminate Hv.
+    rewrite wf_arr in Hw. cbn [k_ok] in Hk. destruct (has_construct k) eqn:Ec.
+    + destruct (map_opt (dec orc T f k) l) as [vs|] eqn:Em; [|discriminate Hd]. injection Hd as <-.
+      cbn [wt wt_step]. eapply (list_wt orc T f IHf); eauto.
+    + injection Hd as <-. cbn [wt wt_step]. apply (list_pj_wt orc T f IHf); auto.
+  - cbn [dec] in Hd. rewrite dec_step_union in Hd. cbn [valid valid_step] in Hv. cbn [wt wt_step].
+    eapply (union_wt orc T f HT IHf); eauto.
+  - apply (kmodel_wt orc T f HT IHf _ j); auto.
+Qed.
 
+(* ================================================================== concrete witnesses *)
 (* the guard is necessary: anyOf[array of date, array of string] admits ["hello"] (a list of str) but to_dict raises *)
 Theorem union_encoder_rejects_refuted : exists T f k v,
   table_ok T = true /\ k_ok k = false /\ wt T f k v = true /\ enc T f k v = None.
+Proof.
+  exists [], 3%nat, (KUnion [KList KDate; KList KStr]), (PList [PJ (JStr w_hello)]).
+  repeat (split; [vm_compute; reflexivity|]). vm_compute; reflexivity.
+Qed.
+
+Definition w_v3 : pv :=
+  Eval vm_compute in match dec w_orc w_T3 5 (KModel 1) w_j3 with Some v => v | None => PUnset end.
 
 Example wt_nonvacuous : exists T f k v, table_ok T = true /\ k_ok k = true /\ wt T f k v = true /\
   (exists c fs ad, v = PObj c fs ad /\ 2 <= length fs)%nat.
-*)
+Proof.
+  exists w_T3, 5%nat, (KModel 1), w_v3.
+  repeat (split; [vm_compute; reflexivity|]). do 3 eexists. split; [reflexivity|]. simpl. lia.
+Qed.
+
+(* the witness is accepted by the encoder, as the theorem says *)
+Example wt_nonvacuous_run : exists j, enc w_T3 5 (KModel 1) w_v3 = Some j.
+Proof. apply annotation_accepted_by_encoder; vm_compute; reflexivity. Qed.
+
+Print Assumptions wt_inhabits.
+Print Assumptions annotation_accepted_by_encoder.
+Print Assumptions field_accepted_by_encoder.
+Print Assumptions decoded_is_well_typed.
+Print Assumptions union_encoder_rejects_refuted.
+Print Assumptions wt_nonvacuous.
+Print Assumptions wt_nonvacuous_run.
